@@ -26,3 +26,5 @@ for p in "$@"; do
   fi
 done
 rm -rf "$REPL"
+# leave a binary that matches the reverted tree behind
+git -C /repo checkout -- . ; ( cd sim && cargo build --release --offline ) >/dev/null 2>&1
